@@ -621,7 +621,8 @@ class Walker(ast.NodeVisitor):
                 last in ("rename", "replace") and isinstance(node.func, ast.Attribute)
                 and "path" in dotted(node.func.value).lower() and not node.keywords):
             fo("move", "-", ",".join(dotted(a) for a in node.args))
-        elif last in ("exists", "is_file", "is_dir", "listdir", "iterdir", "scandir", "stat", "lexists", "isfile") and (
+        elif last in ("exists", "is_file", "is_dir", "listdir", "iterdir", "scandir", "stat", "lexists", "isfile", "isdir",
+                      "getmtime", "getsize", "getctime", "getatime", "samefile", "access", "lstat", "is_symlink", "touch") and (
                 isinstance(node.func, ast.Attribute)):
             fo("probe", "-", dotted(node.func.value))
         elif last in ("mkdir", "makedirs"):
